@@ -106,7 +106,7 @@ def _record_rates(rsys, variables, substance_keys, ratexs, cstr_fr_fc, result):
     ev = []
     for sh, r, rx in zip(shapes, rsys.rxns, ratexs):
         ev.append(dict(ev="AddReaction", reac=kc.full_map(sh["reac"]), prod=kc.full_map(sh["prod"]),
-                       ireac=kc.full_map(sh["ireac"]), iprod=kc.full_map(sh["iprod"]),
+                       ireac=kc.full_map(sh["ireac"]), iprod=kc.full_map(sh["iprod"]), half=kc.full_map({}),
                        kv=_plain_constant(r.param, rx)))
     variables = variables or {}
     vals = [variables.get(s) for s in subst]
@@ -218,7 +218,7 @@ def _record_get_odesys(rsys, include_params, kwargs, out):
             pren[key] = kc.kname(i + 1)
         kinds.append(kind)
         ev.append(dict(ev="AddReaction", reac=kc.full_map(sh["reac"]), prod=kc.full_map(sh["prod"]),
-                       ireac=kc.full_map(sh["ireac"]), iprod=kc.full_map(sh["iprod"]),
+                       ireac=kc.full_map(sh["ireac"]), iprod=kc.full_map(sh["iprod"]), half=kc.full_map({}),
                        kv=val if val is not None else [_KPRIMES[i], 1]))
     n = len(subst)
     c = {s: [1, 1] for s in kc.TRACE_SPECIES}
